@@ -5,24 +5,17 @@ CONSTANTS
   NP = 8
   NR = 2
   NC = 5
-  MINPKS = 2
+  MINPKS = 0
   MAXGRAINS = 3
   UNIQ_NUM = 1
   UNIQ_DEN = 2
-  NPASS = 1
-  MINPKS2 = 2
+  NPASS = 2
+  MINPKS2 = 1
   NCAP = 0
   ALLHITS = FALSE
-  NSAVE = 0
+  NSAVE = 1
   FRESH = TRUE
-  NRESET = 0
-  SHARE = FALSE
-INVARIANT GaRange
-INVARIANT AcceptedScore
-INVARIANT GrainCap
-INVARIANT PairCap
-INVARIANT NoRepeat
-INVARIANT OwnPeaksKept
+  NRESET = 2
+  SHARE = TRUE
 INVARIANT Completeness
-PROPERTY Termination
 CHECK_DEADLOCK FALSE
